@@ -733,6 +733,7 @@ func c12(p *core.Program, r *core.Report) {
 	}
 	normalisationOriginRule(p, r, "normalisation-origin-in-overlap")
 	projectionAxisRule(p, r, "projection-axis-dominant")
+	nonRobustCollinearRule(p, r, "nonrobust-collinear-closed-intervals", c.none)
 	r.Assume("orientation signs are exact (C10); IsPointWithinLineBounds/DoLinesOverlap/Equal compute closed-interval membership, envelope overlap and XY equality (read by hand: four comparisons each); the accuracy of the computed crossing point and the non-robust strategy are not decided")
 }
 
@@ -1261,5 +1262,112 @@ func projectionAxisRule(p *core.Program, r *core.Report, rule string) {
 	}
 	if n < 2 {
 		r.Check(false, rule, "instances", "", true, "", fmt.Sprintf("only %d divisions by an ordinate extent found in %s (2 confirmed by hand in rParameter): the rule would pass vacuously", n, c12Lines))
+	}
+}
+
+// nonRobustCollinearRule (C12): the non-robust strategy decides the collinear case from the parameters r3, r4 of the
+// second segment's endpoints along the first (0 at its start, 1 at its end). Predicate abstraction over their
+// position relative to [0,1]: the two calls that compute them are bound to representative values for every pair of
+// positions (below 0, at 0, inside, at 1, above 1; both orders inside one class), constants are propagated, and the
+// class stored into the record is NoIntersection exactly when the interval [min,max] misses [0,1] - closed
+// intervals, so a touch at either end is an intersection. Decides the "whether they intersect at all" clause for the
+// collinear branch of the non-robust strategy, given exact parameters; not the parameters themselves.
+func nonRobustCollinearRule(p *core.Program, r *core.Report, rule string, none int64) {
+	r.Rule(rule, "predicate abstraction over the positions of r3, r4 relative to [0,1] in NonRobustLineIntersector.computeCollinearIntersection: with the two parameter calls bound to representative values, every class that reaches the record is NoIntersection iff max(r3,r4) < 0 or min(r3,r4) > 1", 40)
+	// the function is found by role: the one function of the package that computes two parameters along a segment
+	// (two calls of a float64-returning function of the package) - whatever it is called and whoever its receiver is
+	paramCalls := func(fn *ssa.Function) []*ssa.Call {
+		var out []*ssa.Call
+		for _, c := range eng.Calls(fn) {
+			call, isCall := c.(*ssa.Call)
+			g := eng.StaticCallee(c)
+			if !isCall || g == nil || core.FnPkgPath(g) != core.FnPkgPath(fn) || g.Signature.Recv() != nil {
+				continue
+			}
+			res := g.Signature.Results()
+			if res.Len() != 1 || g.Signature.Params().Len() != 3 {
+				continue
+			}
+			if b, ok := res.At(0).Type().Underlying().(*types.Basic); ok && b.Kind() == types.Float64 {
+				out = append(out, call)
+			}
+		}
+		return out
+	}
+	var fn *ssa.Function
+	var pcalls []*ssa.Call
+	nFound := 0
+	for _, f := range p.SrcFuncs(true) {
+		if core.FnPkgPath(f) != mod+"/"+c12Lines || f.Blocks == nil {
+			continue
+		}
+		if pc := paramCalls(f); len(pc) == 2 {
+			fn, pcalls = f, pc
+			nFound++
+		}
+	}
+	if nFound != 1 {
+		r.Lost(rule, c12Lines, fmt.Sprintf("expected one function computing the two parameters of the second segment along the first (two calls of a float64-returning three-argument function of the package), found %d", nFound))
+		return
+	}
+	reps := []float64{-2, -1, 0, 0.25, 0.75, 1, 2, 3}
+	for _, a := range reps {
+		for _, b := range reps {
+			if a == b {
+				continue // the second segment has non-zero length
+			}
+			ev := &eng.ConstEval{Inline: func(f *ssa.Function) bool { return false }}
+			ev.Override = func(f *ssa.Function, x ssa.Value, args []eng.CVal) (eng.CVal, bool) {
+				if x == ssa.Value(pcalls[0]) {
+					return eng.ConstV(constant.MakeFloat64(a)), true
+				}
+				if x == ssa.Value(pcalls[1]) {
+					return eng.ConstV(constant.MakeFloat64(b)), true
+				}
+				return eng.CVal{}, false
+			}
+			top := ev.Run(fn, nil)
+			var classes []string
+			okAll, nStores := true, 0
+			eng.WalkReached(top, func(act *eng.CEResult, in ssa.Instruction) {
+				if act.Fn != fn {
+					return
+				}
+				var val ssa.Value
+				switch x := in.(type) {
+				case *ssa.Store:
+					if _, isField := x.Addr.(*ssa.FieldAddr); isField {
+						val = x.Val
+					}
+				case *ssa.Return:
+					if len(x.Results) == 1 {
+						val = x.Results[0]
+					}
+				}
+				if val == nil {
+					return
+				}
+				nt, ok := val.Type().(*types.Named)
+				if !ok || nt.Obj().Pkg() == nil || !strings.HasSuffix(nt.Obj().Pkg().Path(), "xy/lineintersection") {
+					return
+				}
+				nStores++
+				k, isK := act.Of(val).Int()
+				if !isK {
+					okAll = false
+					classes = append(classes, "<not a constant>")
+					return
+				}
+				classes = append(classes, fmt.Sprint(k))
+				lo, hi := math.Min(a, b), math.Max(a, b)
+				disjoint := hi < 0 || lo > 1
+				if disjoint != (k == none) {
+					okAll = false
+				}
+			})
+			r.Check(okAll && nStores > 0, rule, short(fn)+fmt.Sprintf("/r3=%g,r4=%g", a, b), p.Pos(fn.Pos()), true,
+				"the class reaching the record agrees with the closed-interval intersection of [min(r3,r4),max(r3,r4)] and [0,1]",
+				fmt.Sprintf("with the second segment's endpoints at parameters %g and %g along the first the classes stored are %v (NoIntersection is %d): the strategy's answer to 'do they intersect at all' differs from exact geometry", a, b, classes, none))
+		}
 	}
 }
